@@ -225,8 +225,10 @@ def bitfield_family(rnd, thorough):
 
     E8 = A.t_enum("EB", "uint8", [("A", 1), ("B", 2)])
     F16 = A.t_enum("FB", "uint16", [("X", 1), ("Y", 4)], flag=True)
+    E24 = A.t_enum("EC", "uint24", [("A", 1), ("B", 2)])
+    F48 = A.t_enum("FD", "uint48", [("X", 1), ("Y", 4)], flag=True)
     storages = [A.t_int(n) for n in ("uint8", "int8", "uint16", "int16", "uint32", "int32", "uint64", "int64", "uint24", "int48")] + \
-               [A.t_char(), E8, F16]
+               [A.t_char(), E8, F16, E24, F48]
     neighbours = [None, A.t_int("uint8"), A.t_int("uint32"), A.t_arr(A.t_int("uint8"), A.L_NULL), A.t_leb(False)]
     out = []
     for st in storages:
@@ -249,6 +251,13 @@ def bitfield_family(rnd, thorough):
                     if after is not None:
                         fields.append(A.field("post", after))
                     out.append(A.t_struct("BF", fields))
+                    if st["k"] == "enum" and len(ws) > 1:
+                        # an enum / flag and its plain base type are the same storage type: they share units
+                        mixed = [dict(f) for f in fields]
+                        for i, f in enumerate(mixed):
+                            if f["name"].startswith("b") and f["bits"] and int(f["name"][1:]) % 2 == (0 if before is None else 1):
+                                f["type"] = st["base"]
+                        out.append(A.t_struct("BF", mixed))
     return out
 
 
